@@ -32,6 +32,8 @@ def apply_ops(sections, ops):
     return secs, None
 
 def check_case(rep, case, name):
+    if case.get('kind') in ('api-sequence', 'cli-two-sections'):
+        extra_cases(rep); return
     rng = random.Random(case['seed'])
     sp_, head, entries = pair_model(rng, n_species=3)
     tab = [('target', 'LAMMPS'), ('nr', '12'), ('cutoff', '5.5')]
@@ -106,11 +108,37 @@ def gen_case(rng):
         ops2.append(o)
     return dict(seed=seed, ops=ops2, variables=rng.random() < 0.3)
 
+def extra_cases(rep):
+    # (1) API: an operation naming an item that an earlier operation of the same sequence removed refers to a missing item
+    rng = random.Random(11); sp_, head, entries = pair_model(rng, n_species=2)
+    text = render([], [('Tabulation', [('target', 'LAMMPS'), ('nr', '12'), ('cutoff', '5.5')]), ('Pair', entries)])
+    k0 = entries[0][0]
+    for nm, ov in (('remove-then-override', [ConfigParserOverrideTuple('Pair', k0, None), ConfigParserOverrideTuple('Pair', k0, 'as.polynomial 4.0')]),
+                   ('remove-twice', [ConfigParserOverrideTuple('Pair', k0, None), ConfigParserOverrideTuple('Pair', k0, None)])):
+        rep.case('api-sequence', nm)
+        try:
+            ConfigParser(io.StringIO(text), overrides=ov); rep.dev('api-' + nm, dict(kind='api-sequence', name=nm), 'accepted', 'configuration error: the item no longer exists when the second operation is applied')
+        except ConfigurationException: rep.ok()
+        except Exception as e: rep.dev('api-' + nm, dict(kind='api-sequence', name=nm), 'exception %r' % (e,), 'configuration error')
+    # (2) CLI: the same key edited in two different sections in one invocation
+    sp_, head, embed, dens, pairs = eam_model(random.Random(3), fs=False)
+    tabl = [tuple(l.split(' : ')) for l in head if ' : ' in l]
+    secs = [('Tabulation', tabl), ('EAM-Embed', embed), ('EAM-Density', dens), ('Pair', pairs)]
+    a = embed[0][0]
+    ne, nd = '>=0 as.polynomial 0.0 4.0', '>=0 as.polynomial 5.0'
+    edited = [('Tabulation', tabl), ('EAM-Embed', [(k, ne if k == a else v) for k, v in embed]), ('EAM-Density', [(k, nd if k == a else v) for k, v in dens]), ('Pair', pairs)]
+    rep.case('cli-two-sections', a)
+    code, so, se, got = potable(['--override-item', 'EAM-Embed:%s=%s' % (a, ne), 'EAM-Density:%s=%s' % (a, nd)], render([], secs))
+    want = tabulate_text(render([], edited))
+    if got != want: rep.dev('cli-two-sections', dict(kind='cli-two-sections', key=a), 'exit %r: output differs from the file edited in both sections' % (code,), 'same bytes')
+    else: rep.ok()
+
 if __name__ == '__main__':
     pl = payload(); rep = Report('C14')
     if pl.get('mode') == 'replay': rep.case('replay', pl['input']); check_case(rep, pl['input'], 'replay')
     else:
         rng = random.Random(pl.get('seed', 0))
+        extra_cases(rep)
         for i in range(pl.get('n', 40)):
             c = gen_case(rng); rep.case('+'.join(sorted(set(o[0] for o in c['ops']))), c); check_case(rep, c, 'seeded-%d' % i)
     rep.finish()
